@@ -169,6 +169,20 @@ class MemWriter:
         self.close()
         return False
 
+    # update-mode handles ("r+b", "a"): enough of the file API for code that rewrites in place
+    def truncate(self, size=None):
+        self.truncated = True
+        return 0
+
+    def seek(self, pos, whence=0):
+        return 0
+
+    def tell(self):
+        return sum(len(c) for c in self.chunks)
+
+    def flush(self):
+        pass
+
     def close(self):
         if not self.closed:
             self.closed = True
@@ -248,9 +262,11 @@ class MemVFS(_base.VFS_Real):
 
     def open(self, selector, mode, errors=None):
         n = self._node("open:" + mode, selector)
-        if "w" in mode:
+        if "w" in mode or "+" in mode or "a" in mode or "x" in mode:
             if not self._writable:
                 raise PermissionError(errno.EACCES, "read-only", selector)
+            if "r" in mode and n is None:
+                raise FileNotFoundError(errno.ENOENT, "No such file or directory", selector)
             return MemWriter(self, selector)
         if n is None:
             raise FileNotFoundError(errno.ENOENT, "No such file or directory", selector)
